@@ -17,23 +17,25 @@ import (
 )
 
 type OblResult struct {
-	Obl    *Obligation
-	Ex     *Exec
-	Res    *SolveResult
-	Status string // discharged | refuted | undecided | cover-ok | cover-fail
-	Script string
-	LinScript string
+	Obl          *Obligation
+	Ex           *Exec
+	Res          *SolveResult
+	Status       string // discharged | refuted | undecided | cover-ok | cover-fail
+	Script       string
+	LinScript    string
 	SplitScripts []string
+	ConjScripts  []string
+	ConjLin      []string
 }
 
 type FuncResult struct {
-	Key      string
-	Err      string // contract error / engine failure
-	Obls     []*OblResult
-	Abstr    []string
-	Unsound  []string
-	NInstr   int
-	Assumes  []string
+	Key     string
+	Err     string // contract error / engine failure
+	Obls    []*OblResult
+	Abstr   []string
+	Unsound []string
+	NInstr  int
+	Assumes []string
 }
 
 // verifyFunc generates the obligations of one function.
@@ -79,6 +81,7 @@ func verifyFunc(p *Program, key string) (fr *FuncResult, ex *Exec) {
 
 func NewExec(p *Program, fn *ssa.Function, fc *FuncContract, pc *PkgContracts) *Exec {
 	w := NewWorld(p.ModPath)
+	w.bv = p.bvTypes
 	return &Exec{W: w, Prog: p, Fn: fn, FC: fc, PC: pc, keys: map[string]*HeapKey{}, Abstr: map[string]bool{}, Unsound: map[string]bool{},
 		siteCtr: map[string]int{}, bitsDecl: bitsOf2(pc), recDefs: map[string]*recDef{}, recMemo: map[string]string{}, recReads: map[string]map[string]*smt.Term{}}
 }
@@ -92,6 +95,8 @@ func bitsOf2(pc *PkgContracts) map[string]int {
 	}
 	return out
 }
+
+var buildSecs float64
 
 func solveAll(results []*OblResult, timeoutS int, workers int, order []int) {
 	// expand multi-part obligations into per-part work items
@@ -138,15 +143,17 @@ func solveAll(results []*OblResult, timeoutS int, workers int, order []int) {
 		}
 	}()
 	results = work
-	for _, r := range results {
-		r.Script = r.Ex.buildQuery(r.Obl, nil)
-		if !r.Obl.ExpectSat && r.Obl.Guard.Kind == smt.KApp && r.Obl.Guard.Op == "or" && len(r.Obl.Guard.Args) <= 24 && len(r.Script) > 20000 {
-			for _, d := range r.Obl.Guard.Args {
-				o2 := *r.Obl
-				o2.Guard = d
-				r.SplitScripts = append(r.SplitScripts, r.Ex.buildQuery(&o2, nil))
-			}
+	tb := time.Now()
+	defer func() {
+		if os.Getenv("GOVC_DEBUG") != "" {
+			fmt.Fprintf(os.Stderr, "solveAll: %d work items, script building %.1fs, total %.1fs\n", len(work), buildSecs, time.Since(tb).Seconds())
 		}
+	}()
+	for _, r := range results {
+		t1 := time.Now()
+		r.Script = r.Ex.buildQuery(r.Obl, nil)
+		buildSecs += time.Since(t1).Seconds()
+		// fallback scripts (conjunct-wise, disjunct-wise) are built lazily, only when the main query is inconclusive
 		if !r.Obl.ExpectSat && strings.Contains(r.Script, "(* ") || strings.Contains(r.Script, "(div ") || strings.Contains(r.Script, "(mod ") {
 			seen := map[int]bool{}
 			nl := smt.HasNonlinear(r.Obl.Goal, seen) || smt.HasNonlinear(r.Obl.Guard, seen)
@@ -174,6 +181,75 @@ func solveAll(results []*OblResult, timeoutS int, workers int, order []int) {
 					r.Res = Solve2(r.Script, r.LinScript, timeoutS, order)
 					if r.Res.Linearized {
 						r.Script = r.LinScript
+					}
+					if r.Res.Status != "unsat" && r.Res.Status != "sat" {
+						r.Ex.buildMu.Lock()
+						if cj := r.Ex.goalConjuncts(r.Obl.Goal); len(cj) > 1 && len(cj) <= 40 {
+							for _, g := range cj {
+								o2 := *r.Obl
+								o2.Goal = g
+								r.ConjScripts = append(r.ConjScripts, r.Ex.buildQuery(&o2, nil))
+								lin := ""
+								if r.LinScript != "" {
+									lin = r.Ex.buildQueryOpt(&o2, nil, true)
+								}
+								r.ConjLin = append(r.ConjLin, lin)
+							}
+						}
+						if gs := r.Ex.splitByGuard(r.Obl.Guard, r.Obl.Goal); len(gs) > 1 {
+							// one query per (mutually exclusive) incoming branch, with merged values specialised to it
+							for _, gg := range gs {
+								o2 := *r.Obl
+								o2.Guard, o2.Goal = gg[0], gg[1]
+								r.SplitScripts = append(r.SplitScripts, r.Ex.buildQuery(&o2, nil))
+							}
+						}
+						r.Ex.buildMu.Unlock()
+					}
+					if r.Res.Status != "unsat" && r.Res.Status != "sat" && len(r.SplitScripts) > 1 {
+						all := true
+						tot := r.Res.Time
+						tried := append([]string{}, r.Res.Tried...)
+						for _, sc := range r.SplitScripts {
+							pr := Solve2(sc, "", timeoutS, order)
+							tot += pr.Time
+							if pr.Time > r.Res.MaxPart {
+								r.Res.MaxPart = pr.Time
+							}
+							if pr.Status != "unsat" {
+								all = false
+								tried = append(tried, "split:"+strings.Join(pr.Tried, ","))
+								r.Res.Tried = tried
+								break
+							}
+						}
+						if all {
+							r.Res = &SolveResult{Status: "unsat", Solver: fmt.Sprintf("split(%d)", len(r.SplitScripts)), Time: tot, Tried: tried, MaxPart: r.Res.MaxPart}
+						}
+						r.SplitScripts = nil
+					}
+					if r.Res.Status != "unsat" && r.Res.Status != "sat" && len(r.ConjScripts) > 1 {
+						// prove the conjuncts of the goal one by one (each is a smaller query)
+						all := true
+						tot := r.Res.Time
+						tried := append([]string{}, r.Res.Tried...)
+						for ci, sc := range r.ConjScripts {
+							pr := Solve2(sc, r.ConjLin[ci], timeoutS, order)
+							tot += pr.Time
+							if pr.Status != "unsat" {
+								all = false
+								tried = append(tried, "conj:"+strings.Join(pr.Tried, ","))
+								r.Res.Tried = tried
+								if os.Getenv("GOVC_DEBUG") != "" {
+									os.WriteFile("/tmp/govc_conj_fail.smt2", []byte(sc), 0o644)
+									os.WriteFile("/tmp/govc_conj_fail_lin.smt2", []byte(r.ConjLin[ci]), 0o644)
+								}
+								break
+							}
+						}
+						if all {
+							r.Res = &SolveResult{Status: "unsat", Solver: fmt.Sprintf("conj(%d)", len(r.ConjScripts)), Time: tot, Tried: tried}
+						}
 					}
 					if r.Res.Status != "unsat" && r.Res.Status != "sat" && len(r.SplitScripts) > 1 {
 						// case split on the disjuncts of the path condition (each case is a smaller query)
@@ -278,6 +354,9 @@ func cmdVerify(args []string) {
 		fmt.Printf("%-12s %-7s %5.2fs  %s\n", r.Status, r.Res.Solver, r.Res.Time, r.Obl.Name)
 		if r.Status != "discharged" && r.Status != "cover-ok" {
 			fmt.Printf("             at %s  tried %s\n", r.Obl.Pos, strings.Join(r.Res.Tried, " "))
+			if r.Obl.Note != "" {
+				fmt.Printf("             note: %s\n", r.Obl.Note)
+			}
 		}
 		if *dump != "" && regexp.MustCompile(*dump).MatchString(r.Obl.Name) {
 			fmt.Println(r.Script)
